@@ -2,7 +2,9 @@
    input ends up at the position the reference semantics (Spec/LoopSem.v) prescribes - for every
    nesting depth, every number of axes and every size. *)
 From Coq Require Import List NArith Arith Bool Lia.
-From EinxV Require Import Spec.LoopSem Model.Opt Model.Lower Proofs.LoopSemProofs Proofs.OptProofs.
+From Coq Require Import String.
+Close Scope string_scope.
+From EinxV Require Import Spec.LoopSem Model.Opt Model.Lower Proofs.LoopSemProofs Proofs.OptProofs Proofs.AdapterProofs.
 Import ListNotations.
 Open Scope N_scope.
 
@@ -283,3 +285,117 @@ Proof.
   intros H12 H23 H13 B1 B2 B3. rewrite (moved_is_the_meaning d1 d2 H12 rho B1 B2), (moved_is_the_meaning d2 d3 H23 rho B2 B3).
   symmetry. apply (moved_is_the_meaning d1 d3 H13 rho B1 B3).
 Qed.
+
+(* ---------------------------------------------------------------- reductions *)
+(* what a backend reduction over the positions [ax] leaves of a coordinate tuple: the coordinates at the other positions, in order *)
+Fixpoint drop_from {A} (i : nat) (ax : list nat) (l : list A) : list A :=
+  match l with
+  | [] => []
+  | x :: r => if existsb (Nat.eqb i) ax then drop_from (S i) ax r else x :: drop_from (S i) ax r
+  end.
+Definition drop_axes {A} (ax : list nat) (l : list A) : list A := drop_from 0 ax l.
+
+Lemma unoffset_offset_free p : unoffset p = true -> offset_free p = true.
+Proof.
+  induction p as [n l m|cs IH|o t i IH] using pex_ind'; cbn [unoffset offset_free]; intros H; try discriminate; [reflexivity|].
+  apply forallb_forall. intros c Hc. rewrite forallb_forall in H. rewrite Forall_forall in IH. auto.
+Qed.
+
+Lemma drop_from_marks {B} (f : N * N * bool -> B) (L : list (N * N * bool)) : forall i ax,
+  (forall k, (i <= k)%nat -> In k ax <-> nth (k - i) (map snd L) false = true) ->
+  drop_from i ax (map f L) = map f (filter (fun x => negb (snd x)) L).
+Proof.
+  induction L as [|x r IH]; intros i ax H; cbn [map drop_from filter]; [reflexivity|].
+  assert (E : existsb (Nat.eqb i) ax = snd x).
+  { pose proof (H i (le_n i)) as Hi. rewrite Nat.sub_diag in Hi. cbn [map nth] in Hi.
+    destruct (snd x) eqn:Sx.
+    - apply existsb_exists. exists i. split; [now apply Hi|apply Nat.eqb_refl].
+    - destruct (existsb (Nat.eqb i) ax) eqn:Ex; [|reflexivity]. apply existsb_exists in Ex as [k [Hk Ek]].
+      apply Nat.eqb_eq in Ek. subst k. apply Hi in Hk. discriminate. }
+  rewrite E.
+  assert (Hr : forall k, (S i <= k)%nat -> In k ax <-> nth (k - S i) (map snd r) false = true).
+  { intros k Hk. rewrite (H k) by lia. replace (k - i)%nat with (S (k - S i)) by lia. reflexivity. }
+  destruct (snd x); cbn [negb]; [apply IH, Hr|]. cbn [map]. f_equal. apply IH, Hr.
+Qed.
+
+Lemma kept_leaves din : leaves (kept din) = map (fun x => (fst (fst x), snd (fst x), false)) (filter (fun x => negb (snd x)) (leaves din)).
+Proof.
+  unfold kept, leaves. induction (filter (fun x => negb (snd x)) (flat_map pleaves din)) as [|x r IH]; cbn [map flat_map pleaves app]; [reflexivity|].
+  now rewrite IH.
+Qed.
+Lemma kept_lnames din : lnames (kept din) = map (fun x => fst (fst x)) (filter (fun x => negb (snd x)) (leaves din)).
+Proof. unfold lnames. rewrite kept_leaves, map_map. reflexivity. Qed.
+Lemma kept_llens din : llens (kept din) = map (fun x => snd (fst x)) (filter (fun x => negb (snd x)) (leaves din)).
+Proof. unfold llens. rewrite kept_leaves, map_map. reflexivity. Qed.
+Lemma kept_psize din : map psize (kept din) = llens (kept din).
+Proof. rewrite kept_llens. unfold kept. rewrite map_map. reflexivity. Qed.
+Lemma kept_pidx rho din : map (pidx rho) (kept din) = map (lookup rho) (lnames (kept din)).
+Proof. rewrite kept_lnames. unfold kept. rewrite !map_map. reflexivity. Qed.
+
+Section Reduce.
+  Variable V : Type.
+  Variable inp : nat -> entries V.
+  Variable F : String.string -> list (entries V) -> list String.string -> entries V.
+  Variable BC : list N -> list N -> entries V -> entries V.
+  Variable CC : nat -> list (list N * entries V) -> entries V.
+  Variables (f : String.string) (din dout : list pex).
+  Hypothesis Hok : reduce_ok din dout = true.
+
+  Let Hun : forallb offset_free din = true.
+  Proof.
+    unfold reduce_ok in Hok. apply andb_prop in Hok as [H _]. apply andb_prop in H as [H _].
+    apply forallb_forall. intros c Hc. rewrite forallb_forall in H. apply unoffset_offset_free; auto.
+  Qed.
+  Let Hre : rearrange_ok (kept din) dout = true.
+  Proof. unfold reduce_ok in Hok. apply andb_prop in Hok as [_ H]. exact H. Qed.
+
+  Definition reduce_axes : list nat := EinxV.Gen.GenAdapter.gen_expr_to_axis (lmarks din).
+  (* the tensor handed to the backend's reduction, and what the reduction returns *)
+  Definition reduce_arg : tm := MReshape (MIn 0 (map psize din)) (llens din).
+  Definition reduced : entries V := F f [meval V inp F BC CC reduce_arg] [axis_lit reduce_axes; "kw:axis"%string].
+
+  (* 1. the reduction sees every element at the coordinates of its leaf axes *)
+  Theorem reduce_arg_is_the_leaf_view rho v :
+    in_bounds rho din -> In (map (pidx rho) din, v) (inp 0) ->
+    In (map (lookup rho) (lnames din), v) (meval V inp F BC CC reduce_arg).
+  Proof.
+    intros Bin Hin. unfold reduce_arg. cbn [meval mshape]. unfold e_reshape. apply in_map_iff. exists (map (pidx rho) din, v). split; [|exact Hin].
+    cbn [fst snd]. f_equal.
+    change (ravel (map (pidx rho) din) (map psize din)) with (pos rho din).
+    rewrite (pos_leaves rho din Hun), llens_dims, lidx_dims. apply unravel_ravel, leaf_valid, Bin.
+  Qed.
+
+  (* 2. axis= names exactly the bracketed leaves; dropping those positions from the leaf coordinates / lengths leaves the
+        coordinates / lengths of the un-bracketed leaves, in order *)
+  Theorem reduce_axes_are_the_brackets k : In k reduce_axes <-> nth k (lmarks din) false = true.
+  Proof. apply EinxV.Proofs.AdapterProofs.axis_is_bracket_positions. Qed.
+
+  Lemma drop_reduce_axes {B} (g : N * N * bool -> B) :
+    drop_axes reduce_axes (map g (leaves din)) = map g (filter (fun x => negb (snd x)) (leaves din)).
+  Proof.
+    unfold drop_axes. apply drop_from_marks. intros k _. rewrite Nat.sub_0_r. apply reduce_axes_are_the_brackets.
+  Qed.
+  Theorem reduce_drops_to_kept_coordinates rho :
+    drop_axes reduce_axes (map (lookup rho) (lnames din)) = map (lookup rho) (lnames (kept din)) /\
+    drop_axes reduce_axes (llens din) = llens (kept din).
+  Proof.
+    split.
+    - unfold lnames at 1. rewrite map_map, drop_reduce_axes, kept_lnames, map_map. reflexivity.
+    - unfold llens at 1. rewrite drop_reduce_axes, kept_llens. reflexivity.
+  Qed.
+
+  (* 3. whatever the reduction returns at the coordinates of the un-bracketed leaves ends up where the output expression puts it *)
+  Lemma meval_reduce :
+    meval V inp F BC CC (lower_reduce f din dout) = meval V (fun _ => reduced) F BC CC (lower_rearrange 0 (kept din) dout).
+  Proof.
+    unfold lower_reduce, lower_rearrange. cbn [meval mshape map]. rewrite kept_psize. reflexivity.
+  Qed.
+  Theorem lower_reduce_correct rho v :
+    in_bounds rho (kept din) -> in_bounds rho dout ->
+    In (map (lookup rho) (lnames (kept din)), v) reduced ->
+    In (map (pidx rho) dout, v) (meval V inp F BC CC (lower_reduce f din dout)).
+  Proof.
+    intros Bk Bo Hin. rewrite meval_reduce. apply (lower_rearrange_correct V (fun _ => reduced) F BC CC (kept din) dout Hre 0%nat rho v Bk Bo).
+    rewrite kept_pidx. exact Hin.
+  Qed.
+End Reduce.
